@@ -36,17 +36,19 @@ end Assoc
 
 /-- The trait's default `retain_keys`: start from `Self::default()` and re-bind, in the
 iteration order `order` of the key set, every listed key that is currently bound; `unwrap`
-on the bind. `none` models the panic of that `unwrap`. -/
-def retainDefault {K V M : Type} (empty : M) (get : M → K → Option V)
+on the bind. `none` models a panic: of that `unwrap`, or of `get` itself (`getP` returns `none`
+when the real `get` panics — only the matrix map's `checked_add_signed(..).unwrap()` can). -/
+def retainDefault {K V M : Type} (getP : M → K → Option (Option V))
     (bind : M → K → V → Except BindErr M) (m : M) : List K → M → Option M
   | [], acc => some acc
   | k :: ks, acc =>
-    match get m k with
-    | none => retainDefault empty get bind m ks acc
-    | some v =>
+    match getP m k with
+    | none => none
+    | some none => retainDefault getP bind m ks acc
+    | some (some v) =>
       match bind acc k v with
       | .error _ => none
-      | .ok acc' => retainDefault empty get bind m ks acc'
+      | .ok acc' => retainDefault getP bind m ks acc'
 
 /-! ### `StringPositionMap` -/
 
@@ -68,7 +70,7 @@ def strPosMap : MapOps Nat Nat StrPos where
   empty := .unbound
   get := StrPos.get
   bind := StrPos.bind
-  retain := fun m ks => retainDefault StrPos.unbound StrPos.get StrPos.bind m ks .unbound
+  retain := fun m ks => retainDefault (fun m k => some (StrPos.get m k)) StrPos.bind m ks .unbound
 
 /-! ### `MatrixPositionMap` -/
 
@@ -111,6 +113,6 @@ def matPosMap : MapOps (Int × Int) (Nat × Nat) MatPos where
   empty := .unbound
   get := MatPos.get
   bind := MatPos.bind
-  retain := fun m ks => retainDefault MatPos.unbound MatPos.get MatPos.bind m ks .unbound
+  retain := fun m ks => retainDefault MatPos.getP MatPos.bind m ks .unbound
 
 end Pm
